@@ -650,6 +650,7 @@ class Unit:
         self.hoists = []
         self.includes = []
         self.contract_links = []
+        self.caps_idents = set()
         self.text = None
 
 
@@ -970,6 +971,10 @@ def generate(unit, canary=False, expand=True):
                     c = T('proof { assert(false); }')
                     gen2 = gen[:it2.body_open + 1] + c + gen[it2.body_open + 1:]
                 gen = gen2
+            if status == 'merged' and item.kind == 'fn':
+                for k3, t3 in enumerate(gen):
+                    if not t3.ghost and re.match(r'^[A-Z][A-Z0-9_]{2,}$', t3.text) and (k3 == 0 or gen[k3 - 1].text != '::'):
+                        unit.caps_idents.add((t3.text, rel))
             out_chunks.append(render(toks[pos:item.start]))
             out_chunks.append(render_safe(gen))
             start_line, end_line = len(out_chunks) - 1, gen[0].trivia.count('\n')
@@ -1019,6 +1024,29 @@ def generate(unit, canary=False, expand=True):
         ci, lead = it['lines']
         it['lines'] = (cum[ci] + lead + 1, cum[ci + 1] + 1)
     unit.text = ''.join(out_chunks)
+    # a changed function may use a constant the template does not know (a new `const` next to it): take its definition
+    # from the same source file, as it stands (no contract is attached to a constant)
+    extra = []
+    for name, rel in sorted(unit.caps_idents):
+        if re.search(r'\b(const|static)\s+%s\b' % name, unit.text):
+            continue
+        m = None
+        for cand in [rel, 'src/raw/mod.rs', 'src/raw/node.rs', 'src/raw/build.rs', 'src/lib.rs']:
+            try:
+                raw = open(os.path.join(unit.repo, cand)).read()
+            except OSError:
+                continue
+            m = re.search(r'^[ \t]*(?:pub(?:\([^)]*\))?[ \t]+)?const[ \t]+%s[ \t]*:[ \t]*([^=;]+?)[ \t]*=[ \t]*([^;]+);' % name, raw, re.M)
+            if m:
+                rel = cand
+                break
+        if m:
+            extra.append('//@SRC-AUTO %s :: const %s (new constant used by a changed function)\npub const %s: %s = %s;\n' % (rel, name, name, m.group(1), m.group(2)))
+            unit.hits['auto-const ' + name] = 1
+    if extra:
+        k = unit.text.rfind('} // verus!')
+        if k >= 0:
+            unit.text = unit.text[:k] + ''.join(extra) + unit.text[k:]
     unit.assumes = [m.group(1).strip() for m in re.finditer(r'//@ASSUME[ \t]+(.*)', unit.text)]
     return unit
 
